@@ -16,7 +16,8 @@ RULE = ("an execution = one maximal event sequence (<= depth events, closed by a
         "session snapshot observed after any event (per shard, summed); transitions = events applied; non-trivial = "
         "execution in which the session was established or refused by the router")
 ASSUMPTIONS = [
-    "depth 6 (quick) / 7 (thorough) events before the closing transport loss; <= 2 CHALLENGE rounds, "
+    "depth 6 (quick) / 7 (thorough; 6 with the 'pending' callback menus) events before the closing "
+    "transport loss; <= 2 CHALLENGE rounds, "
     "<= 2 leave() and <= 2 disconnect() calls per history",
     "user callback menus: onChallenge return/raise(/pending), onWelcome return/deny/raise(/pending), "
     "onJoin return/raise(/pending), onLeave return/raise after the base class ran/raise before "
@@ -58,12 +59,16 @@ def main(ctx):
     tier = ctx.tier
     depth = 7 if tier == "thorough" else 6
     jobs = []
-    for auth in (0, 1):
-        for mode in (0, 1):
-            for e0 in range(FIX):
-                for e1 in range(FIX + 2):
-                    jobs.append({"auth": auth, "mode": mode, "e0": e0, "e1": e1, "depth": depth,
-                                 "tier": tier})
+    families = [(depth, "quick")]
+    if tier == "thorough":
+        families.append((6, "thorough"))       # user callbacks may also complete later
+    for d, menus in families:
+        for auth in (0, 1):
+            for mode in (0, 1):
+                for e0 in range(FIX):
+                    for e1 in range(FIX + 2):
+                        jobs.append({"auth": auth, "mode": mode, "e0": e0, "e1": e1, "depth": d,
+                                     "tier": menus})
     for fw in ("tx", "aio"):
         ctx.pmap({"fw": fw, "nvx": "1"}, "props.c06:job", jobs, chunksize=4)
     c = ctx.counters
@@ -321,8 +326,8 @@ class Exec:
         if "onWelcome" in self.l1.session.pending_cb or "onChallenge" in self.l1.session.pending_cb:
             return
         ctx = self.phase_ctx()
-        dg0 = self.digest()
         for k in kinds:
+            dg0 = self.digest()
             exc = self.l1.deliver(_msg(k))
             self.stats["probes"] += 1
             self.stats["transitions"] += 1
